@@ -22,6 +22,8 @@
 
 All randomness comes from the rng that is passed in.
 """
+import copy
+
 from py_gql import build_schema as _sdl_build_schema
 from py_gql.exc import ResolverError
 from py_gql.schema import (
@@ -71,9 +73,35 @@ def wrap(rng, name, depth3=True):
 
 
 # ------------------------------------------------------------------ schemas
-def _custom_ser(kind):
+def _same_value(a, b):
+    """type-aware structural equality (True is not 1; dicts compared in order), as pv_eqb in Run/C04run.v"""
+    if type(a) is not type(b):
+        return False
+    if isinstance(a, list):
+        return len(a) == len(b) and all(_same_value(x, y) for x, y in zip(a, b))
+    if isinstance(a, dict):
+        return len(a) == len(b) and all(
+            ka == kb and _same_value(va, vb) for (ka, va), (kb, vb) in zip(a.items(), b.items()))
+    return a == b
+
+
+def _custom_ser(t):
+    """serialize callable of a generated custom scalar (t: its description)"""
+    kind = t["ser"]
     if kind == "identity":
         return lambda v: v
+    if kind == "table":
+        table = t["table"]
+
+        def by_table(v):
+            # designated values are mapped (possibly to None) or rejected; every other value passes
+            for key, action in table:
+                if _same_value(key, v):
+                    if action[0] == "raise":
+                        raise ValueError("rejected by the serialiser")
+                    return action[1]
+            return v
+        return by_table
 
     def int_to_str(v):
         if isinstance(v, bool) or not isinstance(v, int):
@@ -82,12 +110,27 @@ def _custom_ser(kind):
     return int_to_str
 
 
+def _gen_ser_table(rng):
+    keys = rng.sample([0, 7, -1, "nil", "", "x", True, False, [1], {"k": 1}, 2.5], rng.randint(2, 5))
+    table = []
+    for i, k in enumerate(keys):
+        r = rng.random()
+        if i == 0 or r < 0.55:
+            action = ["ret", None]                      # a non-null value that serialises to null
+        elif r < 0.85:
+            action = ["ret", rng.choice(["mapped", 42, False, [None, 1]])]
+        else:
+            action = ["raise"]
+        table.append([k, action])
+    return table
+
+
 def gen_schema(rng):
     n_obj = rng.choice([1, 2, 2, 3, 3])
     n_iface = rng.choice([0, 1, 1, 2])
     n_union = rng.choice([0, 1, 1])
     n_enum = rng.choice([0, 1, 1, 2])
-    n_scalar = rng.choice([0, 0, 1])
+    n_scalar = rng.choice([0, 1, 1])
     has_mut = rng.random() < 0.3
     while 1 + has_mut + n_obj + n_iface + n_union + n_enum + n_scalar > 8:
         n_obj = max(1, n_obj - 1)
@@ -98,6 +141,12 @@ def gen_schema(rng):
     unions = ["U%d" % i for i in range(n_union)]
     enums = ["E%d" % i for i in range(n_enum)]
     scalars = ["S%d" % i for i in range(n_scalar)]
+    scalar_defs = {}
+    for s_ in scalars:
+        kind = rng.choice(["identity", "int_to_str", "table", "table", "table"])
+        scalar_defs[s_] = {"kind": "scalar", "name": s_, "ser": kind}
+        if kind == "table":
+            scalar_defs[s_]["table"] = _gen_ser_table(rng)
     leafs = LEAF_BUILTIN + enums + scalars
     composites = objs + ifaces + unions
 
@@ -130,7 +179,16 @@ def gen_schema(rng):
         if rng.random() < 0.45 and composites:
             t = wrap(rng, rng.choice(composites))
         else:
-            t = wrap(rng, rng.choice(leafs))
+            base = rng.choice(leafs)
+            if base in scalar_defs and scalar_defs[base]["ser"] == "table" or (
+                    i == 0 and any(d["ser"] == "table" for d in scalar_defs.values())):
+                if base not in scalar_defs or scalar_defs[base]["ser"] != "table":
+                    base = [n for n, d in scalar_defs.items() if d["ser"] == "table"][0]
+                # every nullability position of a leaf whose serialiser can produce null
+                t = rng.choice([base, ["nn", base], ["list", base], ["list", ["nn", base]],
+                                ["nn", ["list", ["nn", base]]], ["nn", ["list", base]]])
+            else:
+                t = wrap(rng, base)
         args = []
         if rng.random() < 0.3:
             for j in range(rng.randint(1, 2)):
@@ -195,7 +253,7 @@ def gen_schema(rng):
     for e in enums:
         types.append({"kind": "enum", "name": e, "values": enum_defs[e]})
     for s_ in scalars:
-        types.append({"kind": "scalar", "name": s_, "ser": rng.choice(["identity", "int_to_str"])})
+        types.append(scalar_defs[s_])
     qf = pick_fields(rng.randint(2, 5))
     if not any(named_of(f["type"]) in composites for f in qf):
         comp = [f for f in pool.values() if named_of(f["type"]) in composites]
@@ -270,7 +328,7 @@ def build_schema(desc, resolver):
         if t["kind"] == "enum":
             reg[t["name"]] = EnumType(t["name"], [(n, v) for n, v in t["values"]])
         elif t["kind"] == "scalar":
-            fn = _custom_ser(t["ser"])
+            fn = _custom_ser(t)
             reg[t["name"]] = ScalarType(t["name"], serialize=fn, parse=lambda v: v)
     for t in desc["types"]:
         if t["kind"] == "interface":
@@ -351,7 +409,7 @@ def _build_sdl(desc, resolver):
         if t["kind"] == "enum":
             extra.append(EnumType(t["name"], [(n, v) for n, v in t["values"]]))
         elif t["kind"] == "scalar":
-            extra.append(ScalarType(t["name"], serialize=_custom_ser(t["ser"]), parse=lambda v: v))
+            extra.append(ScalarType(t["name"], serialize=_custom_ser(t), parse=lambda v: v))
     schema = _sdl_build_schema(schema_sdl(desc), additional_types=extra)
     for t in desc["types"]:
         if t["kind"] == "object":
@@ -663,7 +721,7 @@ class World:
             abase = named_of(self.tref_of(a.type))
             # the argument value must be in the modelled domain of the field's serialiser
             if base in ("String", "ID", "Boolean") or base == abase or (
-                    base in self.idx and self.idx[base].get("ser") == "identity"):
+                    base in self.idx and self.idx[base].get("ser") in ("identity", "table")):
                 return ["echo", a.python_name]
         if self.allow_crash and r > 0.985:
             return ["exn"]
@@ -697,6 +755,14 @@ class World:
         if t["kind"] == "scalar":
             if t["ser"] == "identity":
                 return rng.choice([1, "s", None, [1, [2, None]], {"z": 1, "a": {"b": [True]}}, 2.5])
+            if t["ser"] == "table":
+                ok = [k for k, a in t["table"] if a[0] == "ret"]
+                bad = [k for k, a in t["table"] if a[0] == "raise"]
+                if crash and bad:
+                    return copy.deepcopy(rng.choice(bad))
+                if rng.random() < 0.65:
+                    return copy.deepcopy(rng.choice(ok))
+                return rng.choice([3, "other", 1, "", [2], {"k": 2}, 1.5])
             if crash:
                 return rng.choice(["12", True])
             return rng.choice([0, -4, 123456789012])
@@ -850,7 +916,12 @@ def schema_to_coq(desc):
             entries.append("(%s, TEnum %s)" % (n, ser.clist(
                 t["values"], lambda nv: "(%s, %s)" % (ser.cstr(nv[0]), ser.cpv(nv[1])))))
         elif t["kind"] == "scalar":
-            entries.append("(%s, TScalar (SCustom ser_%s))" % (n, t["ser"]))
+            if t["ser"] == "table":
+                rows = ser.clist(t["table"], lambda ka: "(%s, %s)" % (
+                    ser.cpv(ka[0]), "None" if ka[1][0] == "raise" else "(Some %s)" % ser.cpv(ka[1][1])))
+                entries.append("(%s, TScalar (SCustom (ser_table %s)))" % (n, rows))
+            else:
+                entries.append("(%s, TScalar (SCustom ser_%s))" % (n, t["ser"]))
     return "(Schema [%s] %s %s None)" % (
         "; ".join(entries), ser.copt(desc["query"], ser.cstr), ser.copt(desc["mutation"], ser.cstr))
 
